@@ -250,6 +250,13 @@ func (c *Check) Finish() {
 	if _, ok := cov["distinct_nontrivial"]; !ok {
 		cov["distinct_nontrivial"] = len(c.distinct)
 	}
+	// fold in the result of the interleaving exploration (engine E2) that ran just before this harness
+	if raw, err := os.ReadFile(filepath.Join(Dir(), ".work", "conc-"+c.Property+".json")); err == nil {
+		var conc map[string]any
+		if json.Unmarshal(raw, &conc) == nil {
+			cov["concurrency"] = conc
+		}
+	}
 	knownList := make([]string, 0, len(c.known))
 	for k := range c.known {
 		knownList = append(knownList, k)
